@@ -907,7 +907,7 @@ import warnings; warnings.filterwarnings("ignore")
 from hiten.system import System
 from hiten.algorithms.linalg.options import EigenDecompositionOptions
 HIST, DEG = %r, [3, 2]
-def point(): return System.from_bodies("earth", "moon").get_libration_point(1)
+def point(): return System.from_bodies("earth", "moon").get_libration_point(3 if any(op[0] in "EK" for op in HIST) else 1)      # at L3 the classification depends on delta
 def do(p, op, handles):
     if op[0] == "G": h = p.get_center_manifold(DEG[int(op[1])]); handles.append(h); return ("cm", int(h.degree))
     if op[0] == "D":
@@ -916,7 +916,7 @@ def do(p, op, handles):
     if op[0] == "H": return ("ham", int(p.hamiltonian(max_deg=DEG[int(op[1])], form="physical").degree))
     if op[0] == "Y": return ("hamsys", int(p.dynamics.hamsys(DEG[int(op[1])], "physical").degree))
     if op[0] == "E":
-        g = p.dynamics.compute_stability(EigenDecompositionOptions(delta=1e-6, tol=(1e-6, 1e4)[int(op[1])])); v = g.eigenvalues
+        g = p.dynamics.compute_stability(EigenDecompositionOptions(delta=(1e-6, 0.9)[int(op[1])], tol=1e-6)); v = g.eigenvalues
         return ("eig", tuple(int(np.asarray(x).size) for x in v))
     if op == "K":
         import dataclasses
